@@ -16,12 +16,18 @@ import barectf.cgen as bcgen  # noqa: E402
 assert os.path.dirname(os.path.dirname(os.path.abspath(barectf.__file__))) == os.path.abspath(REPO), barectf.__file__
 
 
+import threading
+GEN_LOCK = threading.RLock()    # barectf generation is serialised (the op-tree capture patches a class attribute)
+
+
 def generate(cfg, outdir):
     """Write the generated files of configuration `cfg` into outdir; returns {name: contents}."""
     os.makedirs(outdir, exist_ok=True)
-    cg = barectf.CodeGenerator(cfg)
     files = {}
-    for f in cg.generate_c_headers() + cg.generate_c_sources() + [cg.generate_metadata_stream()]:
+    with GEN_LOCK:
+        cg = barectf.CodeGenerator(cfg)
+        gen = cg.generate_c_headers() + cg.generate_c_sources() + [cg.generate_metadata_stream()]
+    for f in gen:
         files[f.name] = f.contents
         with open(os.path.join(outdir, f.name), 'w') as fh:
             fh.write(f.contents)
